@@ -144,7 +144,7 @@ class G:
         if op == 'map':
             p = self.pick(anyp)
             t = self.types[p]
-            choice = self.pick(['tag', 'tag', 'wrap', 'pair', 'ident', 'fanout'] + (['totuple'] if t[0] == 'list' else []))
+            choice = self.pick(['tag', 'tag', 'wrap', 'pair', 'ident', 'fanout', 'falsy'] + (['totuple'] if t[0] == 'list' else []))
             if choice == 'tag':
                 self.add({'op': 'map', 'up': [p], 'fn': ['tag', r.randrange(1, 9)]}, ('fix', (INT, t)))
             elif choice == 'wrap':
@@ -153,6 +153,9 @@ class G:
                 self.add({'op': 'map', 'up': [p], 'fn': ['pair', r.randrange(1, 9)]}, ('fix', (t, INT)))
             elif choice == 'ident':
                 self.add({'op': 'map', 'up': [p], 'fn': ['ident']}, t)
+            elif choice == 'falsy':
+                m = self.pick([2, 2, 3])
+                self.add({'op': 'map', 'up': [p], 'fn': ['falsy', m, r.randrange(m), self.pick([0, 1])]}, ('any', hashable(t)))
             elif choice == 'totuple':
                 self.add({'op': 'map', 'up': [p], 'fn': ['totuple']}, ('var', 0, t[1]))
             else:
